@@ -391,3 +391,58 @@ def common_alphabet(compiled: Sequence[Compiled], extra: Iterable[str] = ()) -> 
         ment |= c.info["mentioned"]
         leaves += c.g.leaves
     return Alphabet(ment, extra).refine(leaves)
+
+
+def backtrack_match(node, s: str, pos: int = 0) -> Optional[int]:
+    """End position of Python's `pattern.match(s, pos)` for the regex AST `node` (greedy quantifiers, ordered
+    alternation, backtracking) - a model of the matching *semantics* applied to pattern data."""
+    node = _expand(node)
+
+    def m(n, i, k):
+        kind = n[0]
+        if kind == "eps":
+            return k(i)
+        if kind == "leaf":
+            if i < len(s) and n[1].pred(s[i]):
+                return k(i + 1)
+            return None
+        if kind == "cat":
+            parts = n[1]
+
+            def go(j, i2):
+                if j == len(parts):
+                    return k(i2)
+                return m(parts[j], i2, lambda i3: go(j + 1, i3))
+
+            return go(0, i)
+        if kind == "alt":
+            for a in n[1]:
+                r = m(a, i, k)
+                if r is not None:
+                    return r
+            return None
+        if kind == "opt":
+            r = m(n[1], i, k)
+            return r if r is not None else k(i)
+        if kind == "star":
+            def loop(i2):
+                r = m(n[1], i2, lambda i3: loop(i3) if i3 > i2 else None)
+                return r if r is not None else k(i2)
+
+            return loop(i)
+        raise RegexUnsupported(kind)
+
+    return m(node, pos, lambda i: i)
+
+
+def findall_spans(node, s: str) -> List[str]:
+    """Model of pattern.findall(s) for a pattern without groups: leftmost, non-overlapping matches."""
+    out, i = [], 0
+    while i <= len(s):
+        e = backtrack_match(node, s, i)
+        if e is None:
+            i += 1
+            continue
+        out.append(s[i:e])
+        i = e if e > i else i + 1
+    return [t for t in out]
